@@ -34,20 +34,29 @@ func Mono() int64 { return int64(time.Since(monoStart)) }
 // virtual clock
 
 // Clock a virtual clock in whole seconds
-type Clock struct{ v atomic.Int64 }
+type Clock struct {
+	v atomic.Int64
+	// TickPerRead: hostile mode, every reading of the clock (by pike or by the harness) advances it by one second
+	TickPerRead atomic.Bool
+}
 
 // InstallClock installs a virtual clock into pike's cache package
 func InstallClock(start int64) *Clock {
 	c := &Clock{}
 	c.v.Store(start)
-	cache.VerifSetClock(func() int64 { return c.v.Load() })
+	cache.VerifSetClock(c.Now)
 	return c
 }
 
 // UninstallClock back to the real clock
 func UninstallClock() { cache.VerifSetClock(nil) }
 
-func (c *Clock) Now() int64            { return c.v.Load() }
+func (c *Clock) Now() int64 {
+	if c.TickPerRead.Load() {
+		return c.v.Add(1)
+	}
+	return c.v.Load()
+}
 func (c *Clock) Set(v int64)           { c.v.Store(v) }
 func (c *Clock) Advance(d int64) int64 { return c.v.Add(d) }
 
